@@ -567,6 +567,10 @@ func (a *adm) judge() {
 	var inbound [][]byte
 	if sc.Transport == "udp" {
 		for _, d := range a.pc.Received {
+			if d.TruncRead && len(d.Data) <= sc.UDPSize {
+				res.Fail("D1", "datagram-truncated-by-recycled-buffer", "a %d-octet datagram was cut to %d octets by the server's read although UDPSize is %d", len(d.Data), len(d.Seen), sc.UDPSize)
+				return
+			}
 			inbound = append(inbound, d.Seen)
 		}
 	} else {
